@@ -408,6 +408,84 @@ func (e *Engine) assume(st *State, c *Term) {
 	}
 	st.pc = append(st.pc, c)
 	e.sv.Assert(c)
+	e.recordFact(st, c)
+}
+
+// assumeFact records a condition that is already implied by the path condition (no solver assert needed,
+// but kept in pc so summaries and vectors see it).
+func (e *Engine) assumeFact(st *State, c *Term) {
+	e.recordFact(st, c)
+}
+
+// recordFact remembers equalities with constants (and decided booleans) for cheap folding of later conditions.
+func (e *Engine) recordFact(st *State, c *Term) {
+	switch c.op {
+	case "and":
+		e.recordFact(st, c.args[0])
+		e.recordFact(st, c.args[1])
+		return
+	case "=":
+		a, b := c.args[0], c.args[1]
+		if b.k && !a.k {
+			st.setFact(a, b)
+		} else if a.k && !b.k {
+			st.setFact(b, a)
+		}
+	case "not":
+		if !c.args[0].k {
+			st.setFact(c.args[0], Bool(false))
+		}
+		in := c.args[0]
+		if (in.op == "bvugt" || in.op == "bvsgt") && in.args[1].k && signExt(in.args[1].w, in.args[1].c) >= 0 {
+			st.setUB(in.args[0], in.args[1].c)
+		}
+		if (in.op == "bvult" || in.op == "bvslt") && in.args[0].k && signExt(in.args[0].w, in.args[0].c) >= 0 {
+			st.setUB(in.args[1], in.args[0].c)
+		}
+		return
+	case "bvule", "bvsle":
+		if c.args[1].k && signExt(c.args[1].w, c.args[1].c) >= 0 {
+			st.setUB(c.args[0], c.args[1].c)
+		}
+	case "bvult", "bvslt":
+		if c.args[1].k && signExt(c.args[1].w, c.args[1].c) > 0 {
+			st.setUB(c.args[0], c.args[1].c-1)
+		}
+	case "bvuge", "bvsge":
+		if c.args[0].k && signExt(c.args[0].w, c.args[0].c) >= 0 {
+			st.setUB(c.args[1], c.args[0].c)
+		}
+	}
+	if c.w == 0 && !c.k {
+		st.setFact(c, Bool(true))
+	}
+}
+
+// foldKnown simplifies a condition with the facts recorded on this path.
+func (e *Engine) foldKnown(st *State, c *Term) *Term {
+	if c.k || len(st.facts) == 0 {
+		return c
+	}
+	if v, ok := st.facts[c.id]; ok {
+		return v
+	}
+	switch c.op {
+	case "not":
+		return Not(e.foldKnown(st, c.args[0]))
+	case "and":
+		return And(e.foldKnown(st, c.args[0]), e.foldKnown(st, c.args[1]))
+	case "or":
+		return Or(e.foldKnown(st, c.args[0]), e.foldKnown(st, c.args[1]))
+	case "=":
+		a, b := c.args[0], c.args[1]
+		if v, ok := st.facts[a.id]; ok && b.k {
+			return Bool(v.c == b.c)
+		}
+		if v, ok := st.facts[b.id]; ok && a.k {
+			return Bool(v.c == a.c)
+		}
+	}
+	return c
 }
 
 func (e *Engine) reach(st *State, label string) {
@@ -433,6 +511,7 @@ func (e *Engine) Explore(st *State) {
 			case unsupported:
 				e.Paths++
 				e.Unsupp[x.why]++
+				traceUnsupp(x.why)
 			default:
 				panic(r)
 			}
@@ -472,9 +551,22 @@ func (e *Engine) safeStep(st *State) {
 }
 
 // branch explores the alternatives (cond_i, continuation_i) depth-first.
+// branchChecked is branch for alternatives already known to be feasible.
+func (e *Engine) branchChecked(st *State, conds []*Term, apply func(st *State, i int)) {
+	e.branchImpl(st, conds, apply, true)
+}
+
 func (e *Engine) branch(st *State, conds []*Term, apply func(st *State, i int)) {
+	e.branchImpl(st, conds, apply, false)
+}
+
+func (e *Engine) branchImpl(st *State, conds []*Term, apply func(st *State, i int), checked bool) {
 	feasible := []int{}
 	for i, c := range conds {
+		if checked {
+			feasible = append(feasible, i)
+			continue
+		}
 		if c.k {
 			if c.c != 0 {
 				feasible = append(feasible, i)
@@ -506,6 +598,7 @@ func (e *Engine) branch(st *State, conds []*Term, apply func(st *State, i int)) 
 					case unsupported:
 						e.Paths++
 						e.Unsupp[x.why]++
+						traceUnsupp(x.why)
 					default:
 						fmt.Fprintf(os.Stderr, "INTERNAL PANIC: %v\n%s\n", r, debug.Stack())
 						os.Exit(4)
@@ -675,7 +768,7 @@ func (e *Engine) exec(st *State, f *Frame, ins ssa.Instruction) {
 	case *ssa.FieldAddr:
 		p, ok := e.get(st, i.X).(Pointer)
 		if !ok {
-			panic(unsupported{fmt.Sprintf("fieldaddr of %T", e.get(st, i.X))})
+			panic(unsupported{fmt.Sprintf("fieldaddr of %T at %s in %s", e.get(st, i.X), e.prog.Fset.Position(i.Pos()), f.fn)})
 		}
 		if p.obj == 0 {
 			e.goPanic(st, "nil pointer dereference (field)", i.Pos())
@@ -766,7 +859,7 @@ func (e *Engine) exec(st *State, f *Frame, ins ssa.Instruction) {
 		et := i.Type().Underlying().(*types.Slice).Elem()
 		if !cp.k {
 			// allocate up to the maximal feasible capacity bound we can justify cheaply
-			ub, ok := e.maxValue(cp, 4096)
+			ub, ok := e.maxValue(st, cp, 4096)
 			if !ok {
 				panic(unsupported{"makeslice with unbounded symbolic capacity"})
 			}
@@ -810,7 +903,7 @@ func (e *Engine) exec(st *State, f *Frame, ins ssa.Instruction) {
 	case *ssa.Jump:
 		e.jump(st, f, f.blk.Succs[0])
 	case *ssa.If:
-		c := term(e.get(st, i.Cond))
+		c := e.foldKnown(st, term(e.get(st, i.Cond)))
 		if c.k {
 			if c.c != 0 {
 				e.jump(st, f, f.blk.Succs[0])
@@ -820,7 +913,18 @@ func (e *Engine) exec(st *State, f *Frame, ins ssa.Instruction) {
 			return
 		}
 		succs := f.blk.Succs
-		e.branch(st, []*Term{c, Not(c)}, func(s2 *State, k int) {
+		// the current path is feasible, so if one side is infeasible the other needs no query
+		if e.sv.Check(c) == "unsat" {
+			e.assumeFact(st, Not(c))
+			e.jump(st, f, succs[1])
+			return
+		}
+		if e.sv.Check(Not(c)) == "unsat" {
+			e.assumeFact(st, c)
+			e.jump(st, f, succs[0])
+			return
+		}
+		e.branchChecked(st, []*Term{c, Not(c)}, func(s2 *State, k int) {
 			e.jump(s2, s2.top(), succs[k])
 		})
 	case *ssa.Return:
@@ -846,27 +950,117 @@ func (e *Engine) exec(st *State, f *Frame, ins ssa.Instruction) {
 	}
 }
 
-// maxValue finds the largest feasible unsigned value of t on the current path (binary search), up to limit.
-func (e *Engine) maxValue(t *Term, limit uint64) (uint64, bool) {
+// maxValue returns an upper bound (<= limit) for the unsigned value of t on the current path. It
+// need not be tight: callers use it to size allocations and guarded copies. A heuristic candidate
+// (interval reasoning that ignores wrap-around) is validated with one solver query.
+func (e *Engine) maxValue(st *State, t *Term, limit uint64) (uint64, bool) {
 	if t.k {
 		return t.c, t.c <= limit
 	}
 	if ub, ok := upperBound(t); ok && ub <= limit {
 		return ub, true
 	}
-	if e.sv.Check(Cmp("bvugt", t, BV(t.w, limit))) != "unsat" {
-		return 0, false
-	}
-	lo, hi := uint64(0), limit // invariant: t <= hi always; some value >= lo feasible
-	for lo < hi {
-		mid := lo + (hi-lo)/2
-		if e.sv.Check(Cmp("bvugt", t, BV(t.w, mid))) == "unsat" {
-			hi = mid
-		} else {
-			lo = mid + 1
+	if cand, ok := heurUB(st, t, 0); ok && cand < limit {
+		if e.sv.Check(Cmp("bvugt", t, BV(t.w, cand))) == "unsat" {
+			return cand, true
 		}
 	}
-	return hi, true
+	for _, l := range []uint64{4, 16, 64, 256, 1024, 4096, 65536} {
+		if l >= limit {
+			break
+		}
+		if e.sv.Check(Cmp("bvugt", t, BV(t.w, l))) == "unsat" {
+			return l, true
+		}
+	}
+	if e.sv.Check(Cmp("bvugt", t, BV(t.w, limit))) == "unsat" {
+		return limit, true
+	}
+	return 0, false
+}
+
+// heurUB: optimistic unsigned upper bound (subtraction assumed not to wrap); must be validated.
+func heurUB(st *State, t *Term, depth int) (uint64, bool) {
+	if depth > 40 {
+		return 0, false
+	}
+	if t.k {
+		return t.c, true
+	}
+	if v, ok := st.ubs[t.id]; ok {
+		return v, true
+	}
+	switch t.op {
+	case "zext":
+		if v, ok := heurUB(st, t.args[0], depth+1); ok {
+			return v, true
+		}
+		return mask(t.args[0].w), true
+	case "select":
+		return 255, true
+	case "var":
+		if t.w > 0 && t.w <= 16 {
+			return mask(t.w), true
+		}
+	case "extract":
+		if t.w <= 16 {
+			return mask(t.w), true
+		}
+	case "concat":
+		if t.w <= 16 {
+			return mask(t.w), true
+		}
+	case "bvand":
+		a, ok1 := heurUB(st, t.args[0], depth+1)
+		b, ok2 := heurUB(st, t.args[1], depth+1)
+		switch {
+		case ok1 && ok2:
+			return min(a, b), true
+		case ok1:
+			return a, true
+		case ok2:
+			return b, true
+		}
+	case "ite":
+		a, ok1 := heurUB(st, t.args[1], depth+1)
+		b, ok2 := heurUB(st, t.args[2], depth+1)
+		if ok1 && ok2 {
+			return max(a, b), true
+		}
+	case "bvadd":
+		a, ok1 := heurUB(st, t.args[0], depth+1)
+		b, ok2 := heurUB(st, t.args[1], depth+1)
+		if ok1 && ok2 && a < 1<<40 && b < 1<<40 {
+			return a + b, true
+		}
+		// x + (-k): treat as subtraction
+		if ok1 && t.args[1].k && signExt(t.w, t.args[1].c) < 0 {
+			return a, true
+		}
+	case "bvsub":
+		return heurUB(st, t.args[0], depth+1)
+	case "bvmul":
+		a, ok1 := heurUB(st, t.args[0], depth+1)
+		b, ok2 := heurUB(st, t.args[1], depth+1)
+		if ok1 && ok2 && a < 1<<30 && b < 1<<30 {
+			return a * b, true
+		}
+	case "bvlshr", "bvudiv":
+		return heurUB(st, t.args[0], depth+1)
+	case "bvshl":
+		if t.args[1].k && t.args[1].c < 32 {
+			if a, ok := heurUB(st, t.args[0], depth+1); ok && a < 1<<30 {
+				return a << t.args[1].c, true
+			}
+		}
+	case "bvor":
+		a, ok1 := heurUB(st, t.args[0], depth+1)
+		b, ok2 := heurUB(st, t.args[1], depth+1)
+		if ok1 && ok2 && a < 1<<40 && b < 1<<40 {
+			return a + b, true
+		}
+	}
+	return 0, false
 }
 
 func (e *Engine) newSlice(st *State, et types.Type, n int, ln, cp *Term) SliceV {
@@ -940,7 +1134,17 @@ func (e *Engine) binop(st *State, i *ssa.BinOp, x, y Value) Value {
 			return Cmp("bvu"+op, a, b)
 		}
 	case Pointer:
-		b := y.(Pointer)
+		b, isP := y.(Pointer)
+		if !isP {
+			if iv, isI := y.(Iface); isI && a.obj == 0 {
+				eq := Bool(iv.typ == nil)
+				if i.Op == token.EQL {
+					return eq
+				}
+				return Not(eq)
+			}
+			panic(unsupported{fmt.Sprintf("pointer compared with %T", y)})
+		}
 		eq := Bool(a.obj == b.obj)
 		if a.obj == b.obj && a.obj != 0 {
 			eq = Eq(a.off, b.off)
@@ -952,7 +1156,15 @@ func (e *Engine) binop(st *State, i *ssa.BinOp, x, y Value) Value {
 			return Not(eq)
 		}
 	case Iface:
-		eq := e.ifaceEq(st, a, y.(Iface))
+		b, isI := y.(Iface)
+		if !isI {
+			if p, isP := y.(Pointer); isP && p.obj == 0 {
+				b = Iface{}
+			} else {
+				panic(unsupported{fmt.Sprintf("interface compared with %T", y)})
+			}
+		}
+		eq := e.ifaceEq(st, a, b)
 		switch i.Op {
 		case token.EQL:
 			return eq
@@ -1243,7 +1455,13 @@ func (e *Engine) convert(st *State, from, to types.Type, v Value, pos token.Pos)
 				s := v.(StringV)
 				bs, ok := e.stringBytes(st, s)
 				if !ok {
-					panic(unsupported{"[]byte(symbolic-length string)"})
+					// symbolic-length string: the copy is a snapshot of the string's bytes
+					src, ok2 := e.strToSlice(st, s)
+					if !ok2 {
+						panic(unsupported{"[]byte(opaque string)"})
+					}
+					obj := e.snapshotBytes(st, src, pos)
+					return SliceV{obj: obj.obj, off: obj.off, ln: src.ln, cap: src.ln, es: 1}
 				}
 				sl := e.newSlice(st, ts.Elem(), len(bs), BV(64, uint64(len(bs))), BV(64, uint64(len(bs))))
 				o := st.wobj(sl.obj)
@@ -1283,11 +1501,8 @@ func (e *Engine) convert(st *State, from, to types.Type, v Value, pos token.Pos)
 				}
 				return StringV{isObj: true, obj: st.alloc(no), off: BV(64, 0), ln: sv.ln}
 			}
-			if o := st.obj(sv.obj); o.arr != nil {
-				no := &Object{arr: o.arr, n: o.n, typ: o.typ, poisonFrom: o.poisonFrom}
-				return StringV{isObj: true, obj: st.alloc(no), off: sv.off, ln: sv.ln}
-			}
-			return StringV{opaque: true}
+			snap := e.snapshotBytes(st, sv, pos)
+			return StringV{isObj: true, obj: snap.obj, off: snap.off, ln: sv.ln}
 		}
 		if fok && fw > 0 { // string(rune)
 			panic(unsupported{"string(int)"})
@@ -1299,6 +1514,42 @@ func (e *Engine) convert(st *State, from, to types.Type, v Value, pos token.Pos)
 	}
 	// float conversions: carry bit patterns only for consts
 	panic(unsupported{fmt.Sprintf("convert %v -> %v", from, to)})
+}
+
+// strToSlice views a string as a byte slice (concrete strings are materialised as constant objects).
+func (e *Engine) strToSlice(st *State, s StringV) (SliceV, bool) {
+	if s.opaque {
+		return SliceV{}, false
+	}
+	if s.isObj {
+		return SliceV{obj: s.obj, off: s.off, ln: s.ln, cap: s.ln, es: 1}, true
+	}
+	n := len(s.conc)
+	o := &Object{typ: types.NewArray(types.Typ[types.Uint8], int64(n)), n: n}
+	for k := 0; k < n; k++ {
+		o.slots = append(o.slots, BV(8, uint64(s.conc[k])))
+	}
+	return SliceV{obj: st.alloc(o), off: BV(64, 0), ln: BV(64, uint64(n)), cap: BV(64, uint64(n)), es: 1}, true
+}
+
+// snapshotBytes copies the bytes of a (possibly symbolic-length) byte slice into a fresh immutable
+// object and returns a pointer (object, offset) to the first byte of the copy.
+func (e *Engine) snapshotBytes(st *State, sv SliceV, pos token.Pos) Pointer {
+	o := st.obj(sv.obj)
+	if o.arr != nil {
+		// SMT arrays are values: sharing the current array term is a snapshot
+		no := &Object{arr: o.arr, n: o.n, typ: o.typ, poisonFrom: o.poisonFrom}
+		return Pointer{obj: st.alloc(no), off: sv.off}
+	}
+	ub, ok := e.maxValue(st, sv.ln, 4096)
+	if !ok {
+		panic(unsupported{"string/[]byte conversion of unbounded symbolic length at " + e.prog.Fset.Position(pos).String()})
+	}
+	no := &Object{typ: types.NewArray(types.Typ[types.Uint8], int64(ub)), n: int(ub)}
+	for k := 0; k < int(ub); k++ {
+		no.slots = append(no.slots, e.guardedRead(st, sv, k, 1, types.Typ[types.Uint8], pos))
+	}
+	return Pointer{obj: st.alloc(no), off: BV(64, 0)}
 }
 
 func (e *Engine) typeAssert(st *State, i *ssa.TypeAssert) Value {
@@ -1464,6 +1715,12 @@ func (e *Engine) resolveCall(st *State, c *ssa.CallCommon) (Value, []Value) {
 		iv := recv.(Iface)
 		if iv.typ == nil {
 			return FuncV{name: "$nilinvoke"}, nil
+		}
+		if iv.typ == opaqueErrType {
+			if c.Method.Name() == "Error" {
+				return FuncV{name: "$opaqueErrorString"}, nil
+			}
+			panic(unsupported{"method " + c.Method.Name() + " on an error built by fmt.Errorf (opaque)"})
 		}
 		ms := e.prog.MethodSets.MethodSet(iv.typ)
 		sel := ms.Lookup(c.Method.Pkg(), c.Method.Name())
@@ -1633,6 +1890,8 @@ func (e *Engine) builtin(st *State, name string, args []Value, call *ssa.Call, p
 		return Ite(lt, b, a)
 	case "print", "println":
 		return TupleV{}
+	case "$opaqueErrorString":
+		return StringV{opaque: true, nonEmpty: true}
 	case "recover":
 		if st.panicking != nil && st.top().panicDefer {
 			v := st.panicking.val
@@ -1661,15 +1920,26 @@ func (e *Engine) appendOp(st *State, s SliceV, src Value, call *ssa.Call, pos to
 	case StringV:
 		bs, ok := e.stringBytes(st, x)
 		if !ok {
-			panic(unsupported{"append(opaque string...)"})
+			sl, ok2 := e.strToSlice(st, x)
+			if !ok2 {
+				panic(unsupported{"append(opaque string...)"})
+			}
+			return e.appendOp(st, s, sl, call, pos)
 		}
 		n = BV(64, uint64(len(bs)))
 		readSrc = func(k int) Value { return bs[k] }
 	default:
 		panic(unsupported{fmt.Sprintf("append src %T", src)})
 	}
+	if es == 1 && (!n.k || !s.ln.k || !s.cap.k) {
+		if _, isByte := et.Underlying().(*types.Basic); isByte {
+			if sv, ok := src.(SliceV); ok {
+				return e.appendBytesSym(st, s, sv, call, pos)
+			}
+		}
+	}
 	if !n.k {
-		ub, ok := e.maxValue(n, 64)
+		ub, ok := e.maxValue(st, n, 64)
 		if !ok {
 			panic(unsupported{"append with unbounded symbolic source length at " + e.prog.Fset.Position(pos).String()})
 		}
@@ -1713,7 +1983,7 @@ func (e *Engine) appendOp(st *State, s SliceV, src Value, call *ssa.Call, pos to
 		if n.c == 0 {
 			return s
 		}
-		ub, ok := e.maxValue(s.ln, 64)
+		ub, ok := e.maxValue(st, s.ln, 64)
 		if !ok {
 			panic(unsupported{"append to slice of unbounded symbolic length at " + e.prog.Fset.Position(pos).String()})
 		}
@@ -1761,10 +2031,118 @@ func (e *Engine) appendOp(st *State, s SliceV, src Value, call *ssa.Call, pos to
 	return dst
 }
 
+// appendBytesSym appends a byte slice when a length or capacity involved is symbolic, without forking
+// on the lengths: the only fork is on whether the append fits in place (Go's aliasing semantics).
+// A reallocated result is an SMT-array object with capacity == length (Go's real growth leaves
+// implementation-defined spare capacity; see DESIGN 3.1).
+func (e *Engine) appendBytesSym(st *State, s SliceV, src SliceV, call *ssa.Call, pos token.Pos) Value {
+	n := src.ln
+	if src.obj == 0 {
+		return s
+	}
+	ubn, ok := e.maxValue(st, n, 4096)
+	if !ok {
+		panic(unsupported{"append with unbounded symbolic source length at " + e.prog.Fset.Position(pos).String()})
+	}
+	newLen := Bin("bvadd", s.ln, n)
+	fits := And(Bool(s.obj != 0), Cmp("bvule", newLen, s.cap))
+	if !fits.k {
+		fits = e.foldKnown(st, fits)
+	}
+	if !fits.k {
+		r1 := e.sv.Check(fits)
+		r2 := "sat"
+		if r1 != "unsat" {
+			r2 = e.sv.Check(Not(fits))
+		}
+		switch {
+		case r1 == "unsat":
+			fits = Bool(false)
+		case r2 == "unsat":
+			fits = Bool(true)
+		default:
+			e.branchChecked(st, []*Term{fits, Not(fits)}, func(s2 *State, k int) {
+				if k == 0 {
+					s2.top().env[call] = e.appendInPlaceSym(s2, s, src, int(ubn), pos)
+				} else {
+					s2.top().env[call] = e.appendReallocSym(s2, s, src, int(ubn), pos)
+				}
+			})
+			panic("unreachable")
+		}
+	}
+	if fits.c != 0 {
+		return e.appendInPlaceSym(st, s, src, int(ubn), pos)
+	}
+	return e.appendReallocSym(st, s, src, int(ubn), pos)
+}
+
+func (e *Engine) appendInPlaceSym(st *State, s SliceV, src SliceV, ubn int, pos token.Pos) Value {
+	bt := types.Typ[types.Uint8]
+	vals := make([]Value, ubn)
+	for k := range vals {
+		vals[k] = e.guardedRead(st, src, k, 1, bt, pos)
+	}
+	base := Bin("bvadd", s.off, s.ln)
+	for k, v := range vals {
+		p := Pointer{obj: s.obj, off: Bin("bvadd", base, BV(64, uint64(k)))}
+		g := Cmp("bvult", BV(64, uint64(k)), src.ln)
+		if do := st.obj(s.obj); do.arr == nil && p.off.k && int(p.off.c) >= len(do.slots) {
+			continue // beyond the object: cannot be within capacity, so the guard is false here
+		}
+		if g.k {
+			if g.c != 0 {
+				e.store(st, p, bt, v, pos)
+			}
+			continue
+		}
+		old := e.guardedRead(st, SliceV{obj: s.obj, off: base, ln: src.ln, cap: src.ln, es: 1}, k, 1, bt, pos)
+		e.store(st, p, bt, Ite(g, term(v), term(old)), pos)
+	}
+	r := s
+	r.ln = Bin("bvadd", s.ln, src.ln)
+	return r
+}
+
+func (e *Engine) appendReallocSym(st *State, s SliceV, src SliceV, ubn int, pos token.Pos) Value {
+	bt := types.Typ[types.Uint8]
+	ubd := uint64(0)
+	if s.obj != 0 {
+		var ok bool
+		ubd, ok = e.maxValue(st, s.ln, 65536)
+		if !ok {
+			panic(unsupported{"append to slice of unbounded symbolic length at " + e.prog.Fset.Position(pos).String()})
+		}
+	}
+	arr := ConstArr(0)
+	for k := 0; k < int(ubd); k++ {
+		v := term(e.guardedRead(st, s, k, 1, bt, pos))
+		g := Cmp("bvult", BV(64, uint64(k)), s.ln)
+		arr = Store(arr, BV(64, uint64(k)), Ite(g, v, BV(8, 0)))
+	}
+	for k := 0; k < ubn; k++ {
+		v := term(e.guardedRead(st, src, k, 1, bt, pos))
+		idx := Bin("bvadd", s.ln, BV(64, uint64(k)))
+		g := Cmp("bvult", BV(64, uint64(k)), src.ln)
+		if g.k && g.c != 0 {
+			arr = Store(arr, idx, v)
+		} else if !g.k {
+			arr = Store(arr, idx, Ite(g, v, Select(arr, idx)))
+		}
+	}
+	total := int(ubd) + ubn
+	o := &Object{arr: arr, n: total, typ: types.NewArray(bt, int64(total))}
+	newLen := Bin("bvadd", s.ln, src.ln)
+	return SliceV{obj: st.alloc(o), off: BV(64, 0), ln: newLen, cap: newLen, es: 1}
+}
+
 func (e *Engine) copyOp(st *State, dst SliceV, src Value, pos token.Pos) Value {
 	var srcLen *Term
 	var read func(k int) Value
 	es := dst.es
+	if dst.obj == 0 {
+		return BV(64, 0)
+	}
 	et := st.obj(dst.obj).elemType()
 	switch x := src.(type) {
 	case SliceV:
@@ -1778,7 +2156,11 @@ func (e *Engine) copyOp(st *State, dst SliceV, src Value, pos token.Pos) Value {
 	case StringV:
 		bs, ok := e.stringBytes(st, x)
 		if !ok {
-			panic(unsupported{"copy from opaque string"})
+			sl, ok2 := e.strToSlice(st, x)
+			if !ok2 {
+				panic(unsupported{"copy from opaque string"})
+			}
+			return e.copyOp(st, dst, sl, pos)
 		}
 		srcLen = BV(64, uint64(len(bs)))
 		read = func(k int) Value { return bs[k] }
@@ -1795,8 +2177,8 @@ func (e *Engine) copyOp(st *State, dst SliceV, src Value, pos token.Pos) Value {
 		return n
 	}
 	// symbolic count: guarded element writes up to a cheap bound
-	ub1, ok1 := e.maxValue(srcLen, 512)
-	ub2, ok2 := e.maxValue(dst.ln, 512)
+	ub1, ok1 := e.maxValue(st, srcLen, 512)
+	ub2, ok2 := e.maxValue(st, dst.ln, 512)
 	ub := uint64(0)
 	switch {
 	case ok1 && ok2:
@@ -1821,7 +2203,10 @@ func (e *Engine) copyOp(st *State, dst SliceV, src Value, pos token.Pos) Value {
 	}
 	for k, v := range vals {
 		p := Pointer{obj: dst.obj, off: Bin("bvadd", dst.off, BV(64, uint64(k)))}
-		old := e.load(st, p, et, pos)
+		if do := st.obj(dst.obj); do.arr == nil && p.off.k && int(p.off.c) >= len(do.slots) {
+			continue // beyond the destination object: k < n cannot hold here (the bound is not tight)
+		}
+		old := e.guardedRead(st, dst, k, es, et, pos)
 		e.store(st, p, et, Ite(Cmp("bvult", BV(64, uint64(k)), n), term(v), term(old)), pos)
 	}
 	return n
@@ -1847,3 +2232,9 @@ func (o *Object) elemType() types.Type {
 	return types.Typ[types.Uint8]
 }
 
+
+func traceUnsupp(why string) {
+	if t := os.Getenv("GOSYM_TRACE"); t != "" && strings.Contains(why, t) {
+		fmt.Fprintf(os.Stderr, "TRACE %s\n%s\n", why, debug.Stack())
+	}
+}
